@@ -122,6 +122,10 @@ def collect(syn, path):
                     for fl in e["fields"]:
                         if fl["pat"]["k"] == "PIdent":
                             scope[fl["pat"]["name"]] = ("tuple-struct-field", init, idx, fl["member"])
+                elif e["k"] == "PTupleStruct":
+                    for idx2, e2 in enumerate(e["elems"]):
+                        if e2["k"] == "PIdent":
+                            scope[e2["name"]] = ("variant-payload", init, "tuple#%d/" % idx + "::".join(e["path"]["segs"]), idx2)
         elif k == "PTupleStruct":
             for idx, e in enumerate(pat["elems"]):
                 if e["k"] == "PIdent":
